@@ -160,3 +160,47 @@ CLAIMS = {
                 "enumerated/random domains are not covered.",
     },
 }
+
+
+# ---- additions made while the checks grew (appended sentences; the base texts above describe the first build)
+def _add(prop, field, sentence, replace=None):
+    c = CLAIMS[prop]
+    if replace is not None:
+        assert replace in c[field], (prop, replace)
+        c[field] = c[field].replace(replace, sentence)
+    else:
+        c[field] = c[field].rstrip() + " " + sentence
+
+
+_add("C01", "technique", "; A-layer transcription of the patch algorithm (Patcher.tla) model-checked on the device (MC_Converge) and compared with the real code (drift meter)")
+_add("C01", "text", "MC_Converge: the TLA+ transcription of make_diff/make_pre/logics/make_patch/cmd_paths is executed on the P-layer device over the full square of Configs(R) per catalogue entry "
+     "(convergence, empty second diff and patch, diff laws; both raw-rule rank orders and one chain hop in the thorough tier); the entry holding the recorded finding must violate SecondEmpty (anti-vacuity). "
+     "Trace_Patcher compares the transcription with the real diff and command list on every round-1 pair (model_drift in the evidence).")
+_add("C01", "note", "A-layer (Patcher.tla) covers the default/ordered/rewrite diff logics and the six common patch logics with an empty ordering rulebook; vendor-specific logics are not transcribed.",
+     replace="A-layer MC of the patch algorithm not yet wired (a_layer: absent): design-level claim rests on the sketches.")
+_add("C02", "text", "The ACL text is the one annet itself combines (RunGeneratorResult.acl_text()) from per-generator texts with differing source indentation.")
+_add("C03", "note", "The A-layer of the diff (Patcher.tla) is checked against these laws by MC_Converge (run by C01); catalogue entries include a %rewrite rule over nested blocks and a row described by two local rules (children rules unite).",
+     replace="A-layer MC of base_diff not yet wired.")
+_add("C06", "technique", "; plus the exact nondeterministic reading (united rule lines, one governing match per row with fixed consequences, RaiseSet)")
+_add("C06", "text", "On top of the bands SOME choice of governing matches (ties between identical effective patterns resolved direct-before-negated, local-before-%global) must explain both the filtered tree and the "
+     "strict-mode outcome; inputs include families where one row is matched by several rules of different generality, a %global rule among them, or by a protected rule and the written-out negation of another.")
+_add("C06", "note", "No A-layer of the specificity metric: which of several differently specific matches governs is left open by the exact reading.",
+     replace="No A-layer of the specificity metric (bands make it irrelevant to the verdict).")
+_add("C08", "note", "Ordering rules of a level form one sequence in text order; below a row the %global entries keep their place and the ranking rule's children are spliced in at its position (Orderer.Splice); "
+     "alternative ordering rulebooks per catalogue entry; order_config inputs hold negated twins of some rows. Claims only between ranked siblings of different rank;",
+     replace="Claims only between ranked siblings of different rank and of the same origin (own rules vs inherited %global entries);")
+_add("C10", "text", "block_if is also run with its default condition over word / number / None / empty-string tokens (GenRun op enterdef); ACL texts may list one rule on two lines with different parameters.")
+_add("C11", "text", "Three further families put `vlan` list lines next to `vlan N` blocks (Huawei batch, Catalyst, Nexus).")
+_add("C12", "technique", "; TLA+ spec of the per-task retry loop (Retry.tla) with TLC-enumerated task patterns replayed into invoke_retry and judged by a trace judge")
+_add("C12", "text", "Raising ids fail with an ordinary error or with a network error on every attempt, other ids fail transiently within net_retry. MC_Retry enumerates (net_retry 0..3, what the task does on each call); "
+     "each case runs through the real invoke_retry in four exception flavours (direct, reset, context chain, generator-style) and is judged by Trace_Retry (outcome and number of calls).")
+_add("C13", "text", "Documents also differ only in the JSON type of a scalar (1 / true / 1.0, 0 / false).")
+_add("C13", "note", "Third-party known findings (jsonpatch cross-container move; array elements differing only in JSON type).", replace="Third-party known finding (jsonpatch cross-container move).")
+_add("C16", "text", "The VLAN-list rule families of C11 (rules whose logic reads the unchanged lines of its key) are inputs too.")
+_add("C18", "text", "Every short spelling (leading / middle names dropped) that denotes one node answers for that node; a spelling shared by two nodes is refused.")
+_add("C19", "text", "new_files() and new_files(safe=True) are asked of one result object in either order and asked again (both plans judged, and their stability).")
+_add("C20", "note", "Further jobs: synthetic ordering rulebooks whose sibling rules overlap and have children, a Huawei Tunnel interface (overlapping shipped ordering rules), an ACL sharing a row text with an "
+     "%ignore_case rule (compiled before the rulebook is looked up).")
+_add("C07", "text", "Every other pattern reaches the four rulebook compilers spelled with tabs / several blanks between its words.")
+_add("C04", "text", "RouterOS trees hold twin neighbour sections; IOS-XR trees hold QoS blocks ending in end-policy-map / end-class-map rows.")
+_add("C15", "note", "Handler values are constants or derived from the {n} of the device's own matched name.", replace="Handlers are constant tables.")
